@@ -1,56 +1,312 @@
+// C01 harness: a valid Go program means the same when compiled as XGo.
+// Three-way run per generated program of the modelled subset:
+//   (a) the Go source built with plain `go build` and run,
+//   (b) the same source compiled as main.xgo by the REAL XGo compiler (x/build.BuildFile ->
+//       cl.NewPackage -> gogen WriteTo), the written Go built and run,
+//   (c) evalG of the Lean model (the case line is piped to drv_comp by the check).
+// (a)=(b) is the property's oracle on the implementation (o.Oracle); (a)=(c) validates the model
+// (differential).  Extended programs (features outside the model) and mutated corpus Go mains
+// are compared two-way (a)=(b).  Disagreements are shrunk (drop statements / lines while the
+// same disagreement persists).
 package main
 
 import (
 	"fmt"
+	"os"
+	"path/filepath"
+	"strings"
 	"time"
 
-	"verifharness/xrun"
+	"verifharness/compa"
+	"verifharness/vh"
 )
 
-const src = `package main
+const fuel = 400000
 
-import (
-	"fmt"
-	"os"
-)
+var env *compa.Env
+var workDir string
+var batchNo int
 
-func f(a int, b string) (int, string) {
-	return a + 1, b + "x"
+type pair struct {
+	src  string
+	xerr string // XGo compile error ("" = compiled)
+	xsrc []byte
+	a, b compa.RunResult
+}
+
+// runPairs builds and runs every source as Go and as XGo, all in one batch.
+func runPairs(srcs []string) []pair {
+	ps := make([]pair, len(srcs))
+	var progs [][]byte
+	idxA := make([]int, len(srcs))
+	idxB := make([]int, len(srcs))
+	for i, s := range srcs {
+		ps[i].src = s
+		idxA[i] = len(progs)
+		progs = append(progs, []byte(s))
+		out, err, esc, _ := env.BuildFile("main.xgo", s, false)
+		switch {
+		case esc != "":
+			ps[i].xerr = "PANIC " + esc
+		case err != nil:
+			ps[i].xerr = err.Error()
+		default:
+			ps[i].xsrc = out
+			idxB[i] = len(progs)
+			progs = append(progs, out)
+		}
+	}
+	batchNo++
+	dir := filepath.Join(workDir, fmt.Sprintf("batch%d", batchNo))
+	res, err := compa.RunBatch(dir, progs, 20*time.Second)
+	if err != nil {
+		fmt.Fprintln(os.Stderr, "RunBatch:", err)
+		os.Exit(2)
+	}
+	for i := range ps {
+		ps[i].a = res[idxA[i]]
+		if ps[i].xerr == "" {
+			ps[i].b = res[idxB[i]]
+		}
+	}
+	os.RemoveAll(dir)
+	return ps
+}
+
+func normPanic(s string) string {
+	s = strings.TrimPrefix(s, "panic: ")
+	s = strings.ReplaceAll(s, "\n\t", "\n") // go1.23 indents continuation lines of the panic text
+	// goexit / re-panic annotations are kept: they are part of the value line
+	return s
+}
+
+// canon is the canonical outcome line (same format as drv_comp's showRes).
+func canon(r compa.RunResult) string {
+	if r.BuildErr != "" {
+		return "BUILDERR " + compa.ErrClass(r.BuildErr)
+	}
+	if r.Timeout {
+		return "TIMEOUT"
+	}
+	p := "none"
+	if r.Panic != "" {
+		p = vh.HexS(normPanic(r.Panic))
+	}
+	return fmt.Sprintf("exit=%d panic=%s stdout=%s", r.Exit, p, vh.HexS(r.Stdout))
+}
+
+// verdict compares (a) and (b): "" = agree; otherwise a stable key.
+func verdict(p pair) (key, detail string) {
+	if p.a.BuildErr != "" {
+		return "", "" // not a valid Go program: outside the property
+	}
+	if p.xerr != "" {
+		if strings.HasPrefix(p.xerr, "PANIC") {
+			return "xgo-compile-panics", p.xerr
+		}
+		return "xgo-rejects-valid-go:" + compa.ErrClass(p.xerr), firstLine(p.xerr)
+	}
+	if p.b.BuildErr != "" {
+		return "xgo-output-does-not-build:" + compa.ErrClass(p.b.BuildErr), firstLine(p.b.BuildErr)
+	}
+	ca, cb := canon(p.a), canon(p.b)
+	if ca == cb {
+		return "", ""
+	}
+	what := "stdout"
+	switch {
+	case p.a.Timeout != p.b.Timeout:
+		what = "timeout"
+	case p.a.Exit != p.b.Exit:
+		what = "exit-status"
+	case normPanic(p.a.Panic) != normPanic(p.b.Panic):
+		what = "panic-value"
+	}
+	return "go-vs-xgo-differ:" + what, "go: " + short(p.a.String()) + " | xgo: " + short(p.b.String())
+}
+
+func short(s string) string {
+	if len(s) > 400 {
+		return s[:400] + "…"
+	}
+	return s
+}
+
+func firstLine(s string) string {
+	if i := strings.IndexByte(s, '\n'); i >= 0 {
+		return s[:i]
+	}
+	return s
+}
+
+// shrinkLines drops lines while the same verdict key persists (candidates of one round are
+// built together).
+func shrinkLines(src, key string, rounds int) string {
+	for round := 0; round < rounds; round++ {
+		lines := strings.SplitAfter(src, "\n")
+		var cands []string
+		step := 1
+		if len(lines) > 48 {
+			step = len(lines) / 24
+		}
+		for i := 0; i+step <= len(lines); i += step {
+			c := strings.Join(append(append([]string{}, lines[:i]...), lines[i+step:]...), "")
+			cands = append(cands, c)
+		}
+		if len(cands) > 40 {
+			cands = cands[:40]
+		}
+		if len(cands) == 0 {
+			break
+		}
+		best := ""
+		for _, p := range runPairs(cands) {
+			if k, _ := verdict(p); k == key && (best == "" || len(p.src) < len(best)) {
+				best = p.src
+			}
+		}
+		if best == "" {
+			break
+		}
+		src = best
+	}
+	return src
+}
+
+type job struct {
+	kind   string // model | ext | corpus
+	src    string
+	enc    string
+	origin string
 }
 
 func main() {
-	x, y := f(1, "a")
-	fmt.Println(x, y, []int{1, 2}, true)
-	s := []int{1, 2, 3}
-	for i, v := range s {
-		fmt.Println(i, v)
+	f := vh.ParseFlags()
+	o := vh.NewOut(f.Out)
+	defer o.Close()
+	workDir = filepath.Join(f.Out, "work")
+	os.MkdirAll(workDir, 0o755)
+	var err error
+	env, err = compa.NewEnv(filepath.Join(f.Out, "env"))
+	if err != nil {
+		fmt.Fprintln(os.Stderr, "env:", err)
+		os.Exit(2)
 	}
-	func() {
-		x = 5
-	}()
-	switch x {
-	case 5:
-		fmt.Println("five")
-	default:
+	if f.Replay != "" {
+		fs := strings.Split(f.Replay, "\t")
+		var src []byte
+		switch {
+		case fs[0] == "gosrc" && len(fs) >= 2:
+			src, _ = vh.UnHex(fs[1])
+		case fs[0] == "evalg" && len(fs) >= 4:
+			src, _ = vh.UnHex(fs[3])
+		default:
+			fmt.Fprintln(os.Stderr, "replay: unknown case line")
+			os.Exit(2)
+		}
+		p := runPairs([]string{string(src)})[0]
+		fmt.Fprintf(os.Stderr, "--- source\n%s\n--- go : %s\n--- xgo: %s %s\n", src, p.a, p.b, p.xerr)
+		if k, d := verdict(p); k != "" {
+			o.Oracle(k, "gosrc\t"+vh.HexS(string(src)), d)
+		}
+		o.Case(f.Replay, canon(p.a), true)
+		return
 	}
-	if x > 3 {
-		panic("boom")
+	thorough := f.Tier == "thorough"
+	r := vh.NewRand(f.Seed)
+	var jobs []job
+	nModel := f.N
+	nExt := f.N / 3
+	nCorpus := f.N / 3
+	for i := 0; i < nModel; i++ {
+		rr := r.Fork(i)
+		prog, st := compa.GenGo(rr)
+		for k, v := range st {
+			o.Stats["gen_"+k] += v
+		}
+		jobs = append(jobs, job{kind: "model", src: prog.Print(rr.Fork(7)), enc: prog.Encode(), origin: fmt.Sprintf("gen:%d", i)})
 	}
-	os.Exit(3)
-}
-`
-
-func main() {
-	t0 := time.Now()
-	out, err := xrun.CompileFile("main.xgo", src, false)
-	fmt.Println(time.Since(t0), err)
-	fmt.Println(string(out))
-	t0 = time.Now()
-	for i := 0; i < 20; i++ {
-		out, err = xrun.CompileFile("main.xgo", src, false)
+	for i := 0; i < nExt; i++ {
+		rr := r.Fork(500000 + i)
+		src, names := compa.GenGoExt(rr, 2+rr.Intn(4))
+		for _, n := range names {
+			o.Count("ext_" + n)
+		}
+		jobs = append(jobs, job{kind: "ext", src: src, origin: "ext:" + strings.Join(names, "+")})
 	}
-	fmt.Println(time.Since(t0), err)
-	t0 = time.Now()
-	res, err := xrun.RunBatch("/tmp/compA/t1", [][]byte{[]byte(src), out}, 5*time.Second)
-	fmt.Println(time.Since(t0), err, res)
+	mains := compa.LoadGoMains()
+	o.Stats["corpus_go_mains"] = len(mains)
+	for i := 0; i < nCorpus && len(mains) > 0; i++ {
+		rr := r.Fork(900000 + i)
+		it := mains[rr.Intn(len(mains))]
+		src := it.Files["main.go"]
+		kinds := []string{"lit-swap", "op-swap", "dup-line", "drop-line", "swap-tokens", "ident-swap"}
+		origin := "corpus:" + it.Origin
+		if rr.Chance(70) {
+			if m, ok := compa.Mutate(rr, src, kinds[rr.Intn(len(kinds))], ""); ok && !strings.Contains(m, "${") && !strings.Contains(m, "1r") {
+				src = m
+				origin += "/mut"
+			}
+		}
+		jobs = append(jobs, job{kind: "corpus", src: src, origin: origin})
+	}
+	// batches of ~32 sources (64 programs per `go build`)
+	bs := 32
+	if thorough {
+		bs = 64
+	}
+	seenKey := map[string]bool{}
+	for lo := 0; lo < len(jobs); lo += bs {
+		hi := lo + bs
+		if hi > len(jobs) {
+			hi = len(jobs)
+		}
+		srcs := make([]string, hi-lo)
+		for i := range srcs {
+			srcs[i] = jobs[lo+i].src
+		}
+		ps := runPairs(srcs)
+		for i, p := range ps {
+			j := jobs[lo+i]
+			o.Count("kind_" + j.kind)
+			if p.a.BuildErr != "" {
+				if j.kind == "corpus" {
+					o.Count("corpus_invalid_go_skipped")
+					continue
+				}
+				// the generator must only produce valid Go
+				o.Count("generator_invalid_go")
+				fmt.Fprintf(os.Stderr, "GENERATOR DEFECT (%s): %s\n%s\n", j.origin, firstLine(p.a.BuildErr), j.src)
+				continue
+			}
+			switch {
+			case p.a.Timeout:
+				o.Count("outcome_timeout")
+			case p.a.Panic != "":
+				o.Count("outcome_panic")
+			case p.a.Exit != 0:
+				o.Count("outcome_exit")
+			default:
+				o.Count("outcome_ok")
+			}
+			if key, detail := verdict(p); key != "" {
+				src := j.src
+				if !seenKey[key] {
+					seenKey[key] = true
+					src = shrinkLines(src, key, 4)
+				}
+				o.Oracle(key, "gosrc\t"+vh.HexS(src), j.origin+": "+detail)
+			}
+			if j.kind == "model" {
+				if p.a.Timeout {
+					continue // the model would need unbounded fuel: not compared
+				}
+				o.Case(fmt.Sprintf("evalg\t%d\t%s\t%s", fuel, j.enc, vh.HexS(j.src)), canon(p.a), true)
+			} else {
+				// two-way only: the driver answers "skip" and so does the implementation column
+				o.Case("skip\t"+vh.HexS(j.origin+fmt.Sprint(lo+i)), "skip", true)
+			}
+		}
+	}
+	o.Stats["golist_slow_path"] = env.NList
 }
